@@ -266,6 +266,19 @@ def _work(chunk):
     return out
 
 
+def _work_probe(item):
+    version, probe = item
+    tmp = tempfile.mkdtemp(prefix="c05_")
+    try:
+        try:
+            fails, skipped = run_probe(version, probe, tmp)
+        except Exception as ex:      # noqa: BLE001
+            fails, skipped = [("", {}, "%s: %s" % (type(ex).__name__, str(ex)[:300]), "probe runs")], None
+    finally:
+        shutil.rmtree(tmp, ignore_errors=True)
+    return version, probe, fails, skipped
+
+
 def _work_bundled(version):
     tmp = tempfile.mkdtemp(prefix="c05_")
     fails = []
@@ -403,7 +416,7 @@ def run(w: Workload):
         schema(v)            # load before forking: workers inherit the cache
     compliant = [(v, lib, ws) for v, lib, ws in allb if v not in LEGACY]
     # ---- part B work list
-    n_edits = 200 if w.quick else 3000
+    n_edits = int(os.environ.get("C05_N_EDITS", 0)) or (200 if w.quick else 4000)    # env override: debugging only
     work = []
     for k in range(n_edits):
         v, lib, ws = compliant[k % len(compliant)]
@@ -416,10 +429,12 @@ def run(w: Workload):
     for key in sorted(by):
         size = 4 if w.quick else 12
         chunks += [by[key][i:i + size] for i in range(0, len(by[key]), size)]
+    probes = [(v, probe) for v, _, _ in compliant for probe in PROBES]
     with ctx.Pool(nproc) as pool:
         res_a = pool.map_async(_work_bundled, versions, chunksize=1)
         res_b = pool.map_async(_work, chunks, chunksize=1)
-        res_a, res_b = res_a.get(), res_b.get()
+        res_c = pool.map_async(_work_probe, probes, chunksize=2)
+        res_a, res_b, res_c = res_a.get(), res_b.get(), res_c.get()
     # ---- part A
     n_a = 0
     for version, fails in res_a:
@@ -449,19 +464,14 @@ def run(w: Workload):
     tmp = tempfile.mkdtemp(prefix="c05_")
     try:
         n_c = 0
-        for version in [v for v, _, _ in compliant]:
-            for probe in PROBES:
-                try:
-                    fails, skipped = run_probe(version, probe, tmp)
-                except Exception as ex:      # noqa: BLE001
-                    fails, skipped = [("", {}, "%s: %s" % (type(ex).__name__, str(ex)[:300]), "probe runs")], None
-                if skipped is not None:
-                    continue
-                n_c += 1
-                w.case(("C", version, probe[0], probe[2]), sample={"schema": version, "probe": probe[0], "payload": probe[2]})
-                if fails:
-                    w.fail("C05." + probe[0], {"schema": version, "probe": list(probe), "part": "C"},
-                           [(c, wh, ob) for c, wh, ob, _ in fails][:4], "round trip in every format keeps the text")
+        for version, probe, fails, skipped in res_c:
+            if skipped is not None:
+                continue
+            n_c += 1
+            w.case(("C", version, probe[0], probe[2]), sample={"schema": version, "probe": probe[0], "payload": probe[2]})
+            if fails:
+                w.fail("C05." + probe[0], {"schema": version, "probe": list(probe), "part": "C"},
+                       [(c, wh, ob) for c, wh, ob, _ in fails][:4], "round trip in every format keeps the text")
         w.part("C: narrow probes", cases=n_c, exhaustive=True,
                bound="%d fixed payloads inside the allowed classes x the schemas that accept them without a compliance issue" % len(PROBES))
         # ---- part D
